@@ -34,7 +34,7 @@ def setup(run):
     return fixmon.attach_all(run, rt)
 
 
-def gen_case(rng, big=False):
+def gen_case(rng, big=False, no_gc=False, empty_anti=False, lone=False):
     prefix = "chr" if rng.random() < 0.7 else ""
     pool = ["1", "2", "3", "11", "X", "Y"]
     nchr = int(rng.integers(1, 6))
@@ -45,13 +45,21 @@ def gen_case(rng, big=False):
     nt = int(rng.integers(20, 401 if big else 161))
     na = 0 if rng.random() < 0.2 else int(rng.integers(1, 151 if big else 61))
     flat = rng.random() < 0.25
-    has_gc = rng.random() < 0.8
+    has_gc = rng.random() < 0.8 and not no_gc
     has_rmask = rng.random() < 0.75
     has_depth = rng.random() < 0.9
     sizes = rng.permutation(np.arange(40, 40 + 4 * nt + 50))[:nt]
     rows = []
     # distribute bins over chromosomes
     tchrom = np.sort(rng.integers(0, len(names), nt))
+    if lone and len(names) > 1:
+        # one chromosome with exactly one on-target bin (a lone tile has an edge loss but no neighbour)
+        k = int(rng.integers(0, len(names)))
+        tchrom = np.sort(np.concatenate([tchrom[tchrom != k], [k]]))
+        if not (tchrom != k).any():
+            tchrom = np.sort(np.concatenate([tchrom, [(k + 1) % len(names)] * 3]))
+        sizes = rng.permutation(np.arange(40, 40 + 4 * len(tchrom) + 50))[:len(tchrom)]
+        nt = len(tchrom)
     achrom = np.sort(rng.integers(0, len(names), na))
     for ci, nm in enumerate(names):
         pos = int(rng.integers(1000, 50000))
@@ -123,7 +131,7 @@ def gen_case(rng, big=False):
     samp["depth"] = sdepth
     tgt = samp[tmask & keep].reset_index(drop=True)
     anti = samp[~tmask & keep].reset_index(drop=True)
-    if rng.random() < 0.15:
+    if rng.random() < 0.15 or empty_anti:
         anti = anti.iloc[:0]
     return tgt, anti, ref, {"flat": flat, "has_gc": has_gc, "has_rmask": has_rmask, "has_depth": has_depth, "nulls": bool(nulls.any()), "subset": subset}
 
@@ -134,16 +142,17 @@ def _cna(df, sid="S"):
 
 
 def _n(tier):
-    return 192 if tier == "quick" else 2400
+    return 288 if tier == "quick" else 2880
 
 
 def case_fix(run, i):
     import cnvlib.fix as FX
     rng = run.rng("fix", i)
-    tgt, anti, ref, info = gen_case(rng, big=run.tier != "quick")
-    opts = dict(do_gc=bool(i & 1), do_edge=bool(i & 2), do_rmask=bool(i & 4))
     variant = (i // 8) % 6
-    cls = "fix:" + ("flat" if info["flat"] else "pooled") + ":" + "".join(k[3] for k, v in opts.items() if v)
+    corner = (i // 48) % 3        # 0: as drawn; 1: reference without gc column + no antitargets; 2: a chromosome with a single on-target bin
+    tgt, anti, ref, info = gen_case(rng, big=run.tier != "quick", no_gc=corner == 1, empty_anti=corner == 1, lone=corner == 2)
+    opts = dict(do_gc=bool(i & 1), do_edge=bool(i & 2), do_rmask=bool(i & 4))
+    cls = "fix:" + ("flat" if info["flat"] else "pooled") + ":" + "".join(k[3] for k, v in opts.items() if v) + ["", ":nogc-noanti", ":lone-target"][corner]
     if variant == 4:
         # refusal: a sample bin missing from the reference / duplicated coordinates
         which = int(rng.integers(0, 3))
